@@ -230,7 +230,7 @@ def c03_case(args):
             for i in range(len(canon) + 64):
                 m.mem[outp + i] = 0
             snap, brk = dict(m.mem), m.brk
-            eng = Engine(timeout_ms=60000 if tier == "quick" else 300000, max_paths=200)
+            eng = Engine(timeout_ms=240000 if tier == "quick" else 600000, max_paths=200)
 
             def enc_body():
                 m.mem = dict(snap)
@@ -286,7 +286,7 @@ def c03_case(args):
             for i in range(4096):
                 m.mem[areap + i] = 0
             snap, brk = dict(m.mem), m.brk
-            eng = Engine(timeout_ms=60000 if tier == "quick" else 300000, max_paths=200)
+            eng = Engine(timeout_ms=240000 if tier == "quick" else 600000, max_paths=200)
 
             def dec_body():
                 m.mem = dict(snap)
@@ -412,7 +412,7 @@ def c03_json_case(args):
                     m.mem[base_ + i] = b
             snap, brk = dict(m.mem), m.brk
             for direction, fn, fargs, want in (("encode", "@sta_enc", [argp, outp], canon), ("decode", "@sta_dec", [inp, len(canon), areap], exp_dump)):
-                eng = Engine(timeout_ms=60000 if tier == "quick" else 300000, max_paths=200)
+                eng = Engine(timeout_ms=240000 if tier == "quick" else 600000, max_paths=200)
                 dst = fargs[-1]
 
                 def body(fn=fn, fargs=fargs, dst=dst):
@@ -469,7 +469,7 @@ def c03_kernel_case(args):
     G.int = sym_int_ext
     G.max = sym_max
     n, c = SymInt.fresh("N", 1, 64)
-    eng = Engine(timeout_ms=30000)
+    eng = Engine(timeout_ms=240000)
     try:
         for pi, (kind, out, pc) in enumerate(eng.explore(lambda: G._to_highest_power_of_two(n), [c])):
             ob = f"_to_highest_power_of_two|path{pi}"
